@@ -80,18 +80,22 @@ pub fn linenumbers_and_styles<'a>(
     );
     let ((minus_number, plus_number), (minus_style, plus_style)) = match state {
         State::HunkMinus(_, _) => {
-            line_numbers_data.line_number[Left] += increment as usize;
+            line_numbers_data.line_number[Left] =
+                line_numbers_data.line_number[Left].saturating_add(increment as usize);
             ((Some(nr_left), None), (minus_style, plus_style))
         }
         State::HunkMinusWrapped => ((None, None), (minus_style, plus_style)),
         State::HunkZero(_, _) => {
-            line_numbers_data.line_number[Left] += increment as usize;
-            line_numbers_data.line_number[Right] += increment as usize;
+            line_numbers_data.line_number[Left] =
+                line_numbers_data.line_number[Left].saturating_add(increment as usize);
+            line_numbers_data.line_number[Right] =
+                line_numbers_data.line_number[Right].saturating_add(increment as usize);
             ((Some(nr_left), Some(nr_right)), (zero_style, zero_style))
         }
         State::HunkZeroWrapped => ((None, None), (zero_style, zero_style)),
         State::HunkPlus(_, _) => {
-            line_numbers_data.line_number[Right] += increment as usize;
+            line_numbers_data.line_number[Right] =
+                line_numbers_data.line_number[Right].saturating_add(increment as usize);
             ((None, Some(nr_right)), (minus_style, plus_style))
         }
         State::HunkPlusWrapped => ((None, None), (minus_style, plus_style)),
@@ -189,7 +193,11 @@ impl<'a> LineNumbersData<'a> {
         // file. In the case of merge commits, it may be longer.
         self.line_number =
             MinusPlus::new(line_numbers[0].0, line_numbers[line_numbers.len() - 1].0);
-        let hunk_max_line_number = line_numbers.iter().map(|(n, d)| n + d).max().unwrap();
+        let hunk_max_line_number = line_numbers
+            .iter()
+            .map(|(n, d)| n.saturating_add(*d))
+            .max()
+            .unwrap();
         self.hunk_max_line_number_width =
             1 + (hunk_max_line_number as f64).log10().floor() as usize;
         self.plus_file = plus_file;
